@@ -985,16 +985,61 @@ pub fn execute(sc: &SimScenario) -> Outcome {
         dirty: BTreeSet::new(),
     };
     let _ = ck.os;
+    let mut freed_last: Vec<(u64, u64)> = Vec::new();
     for (li, lt) in sc.lifetimes.iter().enumerate() {
         ck.lifetime = li;
         ck.named.clear();
         for m in ck.model.iter_mut() {
             m.clear();
         }
+        // ---- what the rest of the process did meanwhile (not injector actions: not logged)
+        for ev in &lt.pre {
+            match ev.as_str() {
+                "reprotect_text" => {
+                    with_world(|w| {
+                        for (_, r) in w.regions.iter_mut() {
+                            if r.owner == Owner::Text {
+                                r.prot = PROT_R | PROT_X;
+                            }
+                        }
+                    });
+                    *ck.out.faults.entry("env_text_reprotected_between_lifetimes".into()).or_insert(0) += 1;
+                }
+                "occupy_freed" => {
+                    let n = with_world(|w| {
+                        let mut n = 0u64;
+                        let ps = w.page_size;
+                        let freed: Vec<(u64, u64)> = freed_last.iter().map(|(a, l)| (*a & !(ps - 1), (*l + ps - 1) / ps * ps)).collect();
+                        for (a, l) in freed {
+                            if l > 0 && w.is_free(a, a + l) {
+                                w.map_fixed(a, l, 0, Owner::Foreign, None);
+                                n += 1;
+                            }
+                        }
+                        n
+                    });
+                    if n > 0 {
+                        *ck.out.faults.entry("env_freed_trampoline_pages_taken_by_someone_else".into()).or_insert(0) += n;
+                    }
+                }
+                _ => {}
+            }
+        }
         ck.ev_mark = with_world(|w| w.events.len());
         ck.counted_installed = false;
         with_world(|w| w.policy.mprotect_deny.clear());
+        let ev_start = with_world(|w| w.events.len());
         let r = dispatch(&sc.variant, lt, &sc.targets, &mut ck);
+        // pages this lifetime's trampolines lived in and gave back
+        freed_last = with_world(|w| {
+            w.events[ev_start.min(w.events.len())..]
+                .iter()
+                .filter_map(|e| match e {
+                    Ev::Munmap { addr, len, ret: 0, own, .. } if *own == 4 => Some((*addr, *len)),
+                    _ => None,
+                })
+                .collect()
+        });
         ck.last_exit_ok = matches!(r, OpResult::Ok);
         with_world(|w| w.observer = None);
         let first = { let mut b = ck.obs_findings.borrow_mut(); let f = b.first().cloned(); b.clear(); f };
